@@ -245,3 +245,147 @@ def rlen_of(rec):
     if end:
         return end[0] - rec["pos"] + 1
     return len(rec["ref"])
+
+
+# ----------------------------------------------------------------------------- rich files (C01 & friends)
+
+# float32-exact values; the text is the shortest repr of the float32 value as a double, which parses back exactly
+FLOAT_POOL = ["0", "-0.0", "1", "-1", "0.5", "0.25", "1.5", "3.140625", "100", "1e+10", "-2.5e-05",
+              "1.17549435e-38", "3.40282347e+38", "-3.40282347e+38", "1.40129846e-45", "65504", "0.333251953125",
+              "123456.7890625", "1e-20"]
+INT_EDGES = [0, 1, -1, 127, 128, -128, -129, 32767, 32768, -32768, -32769, 2**31 - 1, -(2**31) + 8]
+STR_POOL = ["a", "bc", "xyz", "T", "foo_bar", "Q9", "longer-string-value", "z"]
+NUMBERS = ["1", "2", "A", "R", "G", "."]
+
+
+def _count(number, nalt, ploidy, rng):
+    if number == "A":
+        return nalt
+    if number == "R":
+        return nalt + 1
+    if number == "G":
+        n = nalt + 1
+        return n if ploidy == 1 else n * (n + 1) // 2
+    if number == ".":
+        return rng.choice([1, 1, 2, 3])
+    return int(number)
+
+
+def _value(rng, typ, k, allow_missing_entries=True, small=False):
+    if typ == "Integer":
+        def one():
+            if allow_missing_entries and rng.random() < 0.08:
+                return None
+            if small or rng.random() < 0.8:
+                return rng.randrange(-20, 120)
+            return rng.choice(INT_EDGES)
+        return [one() for _ in range(k)]
+    if typ == "Float":
+        return [None if (allow_missing_entries and rng.random() < 0.08) else rng.choice(FLOAT_POOL) for _ in range(k)]
+    if typ == "Character":
+        return [rng.choice("ABCxyz") for _ in range(k)]
+    return [rng.choice(STR_POOL) for _ in range(k)]
+
+
+def rich_file(rng, nrec=None, nsamples=None, ncontig=None, fields="all", gt=True, ploidies=(2,), max_alt=3,
+              small_ints=False, records_lack_gt=False):
+    nrec = nrec if nrec is not None else rng.choice([1, 3, 8, 20, 60])
+    nsamples = nsamples if nsamples is not None else rng.choice([0, 1, 2, 3, 6])
+    ncontig = ncontig or rng.choice([1, 2, 3, 5])
+    with_len = rng.random() < 0.6
+    contigs = [[f"chr{i}", (10**6 + i) if with_len else None] for i in range(ncontig)]
+    filters = [["PASS", "All filters passed"]] + [[f, f"desc {f}"] for f in rng.sample(["q10", "s50", "LowQual"], rng.choice([0, 1, 2, 3]))]
+    if rng.random() < 0.3:
+        rng.shuffle(filters)      # PASS need not be declared first
+    infos, formats = [], []
+    types = ["Integer", "Float", "String", "Character"]
+    if fields == "all":
+        for typ in types:
+            for num in rng.sample(NUMBERS, rng.choice([1, 2, 3])):
+                infos.append({"id": f"I{typ[0]}{num.replace('.', 'v')}", "number": num, "type": typ})
+        if rng.random() < 0.7:
+            infos.append({"id": "FLG", "number": "0", "type": "Flag"})
+        if nsamples:
+            for typ in types:
+                for num in rng.sample(NUMBERS, rng.choice([0, 1, 2])):
+                    formats.append({"id": f"F{typ[0]}{num.replace('.', 'v')}", "number": num, "type": typ})
+    rng.shuffle(infos)
+    rng.shuffle(formats)
+    if nsamples and gt:
+        formats.insert(rng.randrange(len(formats) + 1) if rng.random() < 0.3 else 0, {"id": "GT", "number": "1", "type": "String"})
+    use_end = rng.random() < 0.4
+    if use_end:
+        infos.append({"id": "END", "number": "1", "type": "Integer"})
+    used = [i for i in range(ncontig) if rng.random() < 0.8] or [0]
+    counts = [0] * ncontig
+    for _ in range(nrec):
+        counts[rng.choice(used)] += 1
+    records = []
+    for ci in range(ncontig):
+        for p in positions(rng, counts[ci], 1, rng.choice([200, 40000, 900000])) if counts[ci] else []:
+            nalt = rng.choice([0, 1, 1, 1, 2, max_alt])
+            ref = rand_seq(rng, rng.choice([1, 1, 1, 2, 4]))
+            alts = [rand_seq(rng, rng.choice([1, 1, 2, 3])) for _ in range(nalt)]
+            rec = {"contig": ci, "pos": p, "id": rng.choice([None, None, f"rs{p}", f"rs{p};x{ci}"]), "ref": ref, "alt": alts,
+                   "qual": rng.choice([None, None] + FLOAT_POOL[:8]),
+                   "filter": rng.choice([None, [], []] + [[f[0]] for f in filters if f[0] != "PASS"] +
+                                        ([[f[0] for f in filters if f[0] != "PASS"][:2]] if len(filters) > 2 else [])),
+                   "info": {}}
+            if use_end and nalt and rng.random() < 0.3:
+                rec["alt"] = ["<DEL>"] + alts[1:]
+                rec["info"]["END"] = [p + rng.choice([0, 5, 300])]
+            ploidy = rng.choice(ploidies)
+            for f in infos:
+                if f["id"] == "END":
+                    continue
+                r = rng.random()
+                if r < 0.25:
+                    continue                        # key absent
+                if f["type"] == "Flag":
+                    rec["info"][f["id"]] = True
+                    continue
+                if r < 0.32:
+                    rec["info"][f["id"]] = None     # KEY=.
+                    continue
+                k = _count(f["number"], nalt, 2, rng)
+                if k == 0:
+                    continue
+                rec["info"][f["id"]] = _value(rng, f["type"], k, allow_missing_entries=f["type"] in ("Integer", "Float") and k > 1,
+                                              small=small_ints)
+            if nsamples:
+                keys = [f["id"] for f in formats if f["id"] == "GT" or rng.random() < 0.8]
+                if records_lack_gt and rng.random() < 0.2:
+                    keys = [k_ for k_ in keys if k_ != "GT"]
+                if "GT" in keys:                    # GT must be first when present
+                    keys = ["GT"] + [k_ for k_ in keys if k_ != "GT"]
+                rec["format"] = keys
+                rec["samples"] = []
+                for _s in range(nsamples):
+                    s = {}
+                    sp = rng.choice(ploidies) if rng.random() < 0.15 else ploidy
+                    for key in keys:
+                        f = next(x for x in formats if x["id"] == key)
+                        if key == "GT":
+                            alleles = [None if rng.random() < 0.1 else rng.randrange(0, nalt + 1) for _ in range(sp)]
+                            seps = [rng.choice("/|") for _ in range(sp - 1)]
+                            txt = "." if alleles[0] is None else str(alleles[0])
+                            for a, sep in zip(alleles[1:], seps):
+                                txt += sep + ("." if a is None else str(a))
+                            s["GT"] = txt
+                            s["_alleles"] = alleles
+                            s["_seps"] = seps
+                            continue
+                        r = rng.random()
+                        if r < 0.12:
+                            s[key] = None
+                            continue
+                        k = _count(f["number"], nalt, sp, rng)
+                        if k == 0:
+                            s[key] = None
+                            continue
+                        s[key] = _value(rng, f["type"], k, allow_missing_entries=f["type"] in ("Integer", "Float") and k > 1,
+                                        small=small_ints)
+                    rec["samples"].append(s)
+            records.append(rec)
+    return {"contigs": contigs, "filters": filters, "infos": infos, "formats": formats,
+            "samples": [f"s{j}" for j in range(nsamples)], "records": records}
